@@ -286,8 +286,11 @@ func (p *pointG2) MarshalBinary() ([]byte, error) {
 		p.g = &twistPoint{}
 	}
 
-	p.g.MakeAffine()
-	if p.g.IsInfinity() {
+	// Take a copy so that p is not written to, so calls to MarshalBinary
+	// (and Equal, which marshals both operands) are threadsafe, as for G1.
+	pgtemp := *p.g
+	pgtemp.MakeAffine()
+	if pgtemp.IsInfinity() {
 		return make([]byte, 1), nil
 	}
 
@@ -295,13 +298,13 @@ func (p *pointG2) MarshalBinary() ([]byte, error) {
 	ret[0] = 0x01
 	temp := &gfP{}
 
-	montDecode(temp, &p.g.x.x)
+	montDecode(temp, &pgtemp.x.x)
 	temp.Marshal(ret[1+0*n:])
-	montDecode(temp, &p.g.x.y)
+	montDecode(temp, &pgtemp.x.y)
 	temp.Marshal(ret[1+1*n:])
-	montDecode(temp, &p.g.y.x)
+	montDecode(temp, &pgtemp.y.x)
 	temp.Marshal(ret[1+2*n:])
-	montDecode(temp, &p.g.y.y)
+	montDecode(temp, &pgtemp.y.y)
 	temp.Marshal(ret[1+3*n:])
 
 	return ret, nil
